@@ -126,7 +126,7 @@ def work(chunk, points=None, tier='quick', quick_slice=0):
                               'Derivative(%s, n=%d, %s, order=%d, gen=%r)(%r): error %.3g > K1=%g x estimate %.3g + '
                               'F=%g x S_n %.3g' % (show, n, method, order, gen, comb.x, err, K1, e, F, unit), rank)
 
-        c01.run_spec(spec, points, tier, visit, quick_slice, honesty=True)
+        c01.run_spec(spec, points, tier, visit, quick_slice, honesty=True, want_steps=True)
     return acc
 
 
@@ -169,7 +169,7 @@ def replay(case):
     pi = cm.PointInfo()
     pi.x = x
     fun = c01.spec_fun(spec)
-    res = cm.run_config(fun, cfg, gen, pi, None)
+    res = cm.run_config(fun, cfg, gen, pi, None, True)
     if res['status'] != 'ok':
         return True, 'raised %s (C01 verdict)' % res['exc']
     method, n, order = cfg
